@@ -778,7 +778,8 @@ class _Namespaces:
             filter(lambda r: r.type == r.NAMESPACE_RULE, self.parentStyleSheet.cssRules)
         ):
             if rule == delrule:
-                self.parentStyleSheet.deleteRule(i)
+                # i counts @namespace rules only, so hand over the rule itself
+                self.parentStyleSheet.deleteRule(rule)
                 return
 
         self._log.error('Prefix %s not found.' % prefix, error=xml.dom.NamespaceErr)
